@@ -303,6 +303,7 @@ mod verif_native {
                 defs.extend(helpers.iter().cloned());
                 let msg = sample_struct(&defs, "P", (li * 5 + hv) as u64, 0);
                 if compare(&defs, "P", &dom, &msg) { accepted += 1; }
+                if li % 1500 == 7 && hv < 2 { println!("VERIF-NATIVE-SAMPLE nb_eip712_type_graphs_vs_reference {}", document(&defs, "P", &dom, &msg)); }
                 cases += 1;
             }
         }
@@ -421,7 +422,10 @@ mod verif_native {
             let dom: Map<String, Value> = members.iter().map(|(n, t)| (n.clone(), value_of(t))).collect();
             if compare(&defs, "P", &dom, &msg) {
                 accepted += 1;
+                if accepted % 10 == 1 { println!("VERIF-NATIVE-SAMPLE nb_domain_types_enumerated accepted: {:?}", members.iter().map(|(n, t)| format!("{t} {n}")).collect::<Vec<_>>()); }
                 well_formed.push(members);
+            } else if cases % 3000 == 17 {
+                println!("VERIF-NATIVE-SAMPLE nb_domain_types_enumerated refused: {:?}", members.iter().map(|(n, t)| format!("{t} {n}")).collect::<Vec<_>>());
             }
             cases += 1;
         }
